@@ -25,8 +25,10 @@ back end spells the leaf `reconcile` left there) together with the Rust-level th
   `C09_exact` / `C09_converse` — and inside the per-reference class it always fails.
 * `C09_no_renames`, `C09_all_but_go`, `C09_go_without_renamed_enums`, `C09_generic_heads`,
   `C09_generic_parameters` — the corollaries.
-* Not covered by `C09_full` (single-file programs): the Kotlin multi-file finding
-  `kotlin_import_without_prefix`, which stays open.
+* Not covered by `C09_full` (single-file programs): Kotlin multi-file import lines.  The finding
+  `kotlin-import-without-prefix` is repaired (`fix:` commit abe0590): `C09_kotlin_import_lines` —
+  every import line names the type with the prefix, as its own module defines it — and the old
+  witness is the positive regression example `repaired_kotlin_import_prefix`.
 -/
 namespace TsV.C09
 open TsV TsV.Pipeline TsV.Generate
@@ -456,14 +458,41 @@ theorem go_text_unit :
       [.ok s%"type User struct {\n\tU UnitNew `json:\"u\"`\n}\n"] := by
   decide +kernel
 
-/-- Kotlin multi-file import lines carry no prefix (`write_imports`, kotlin.rs:288): with prefix `OP`
-the imported class is defined as `OPFoo` -/
-theorem kotlin_import_without_prefix :
+/-! ## Kotlin multi-file import lines (repaired by the `fix:` commit abe0590)
+
+Before the repair `write_imports` (kotlin.rs:288) named the imported type as in the Rust source
+(`import com.example.alpha.Foo`) although the other module defines it behind the configured prefix
+(`OPFoo`): the class `kotlin-import-without-prefix`. -/
+
+/-- **Every Kotlin import line names the type exactly as its own module defines it**: for every
+entry `t` of the scoped imports of crate `c` and every item whose (renamed) name is `t` — the names
+`used_imports` collects are the other crate's `id.renamed` — the line
+`import <package>.<c>.<defName>` is in what `write_imports` prints, for every prefix. -/
+theorem C09_kotlin_import_lines (cfg : Lang.Kotlin.Cfg) (imps : ScopedCrateTypes) (c t : Str) (tys : List Str)
+    (h : (c, tys) ∈ imps) (ht : t ∈ tys) (it : RustItem) (hit : (itemId it).renamed = t) :
+    (s%"import " ++ cfg.package ++ s%"." ++ c ++ s%"." ++ defName (.kotlin cfg) it ++ Lang.nl) <:+:
+      Lang.Kotlin.writeImports cfg imps := by
+  subst hit
+  unfold Lang.Kotlin.writeImports
+  refine List.IsInfix.trans ?_ (List.prefix_append _ _).isInfix
+  refine List.IsInfix.trans ?_ (infix_flatMap_of_mem _ imps (c, tys) h)
+  have := infix_flatMap_of_mem
+    (fun t => s%"import " ++ cfg.package ++ s%"." ++ c ++ s%"." ++ cfg.pfx ++ t ++ Lang.nl) tys _ ht
+  simpa only [defName, List.append_assoc] using this
+
+/-- the old witness as a positive regression example: with prefix `OP` the import line of `Foo`
+reads `import com.example.alpha.OPFoo`, the name the class is defined under (it read
+`import com.example.alpha.Foo` before abe0590) -/
+theorem repaired_kotlin_import_prefix :
     Lang.Kotlin.writeImports { package := s%"com.example", pfx := s%"OP" } [(s%"alpha", [s%"Foo"])] =
-      s%"import com.example.alpha.Foo\n\n" ∧
+      s%"import com.example.alpha.OPFoo\n\n" ∧
     defName (.kotlin { package := s%"com.example", pfx := s%"OP" }) (.struct (mkStruct s%"Foo" none [] [])) =
       s%"OPFoo" := by
   decide +kernel
+
+/-- `C09_kotlin_import_lines`: hypotheses met by the witness (and by a serde-renamed type) -/
+example : (s%"alpha", [s%"Foo", s%"BarNew"]) ∈ [(s%"alpha", [s%"Foo", s%"BarNew"])] ∧ s%"BarNew" ∈ [s%"Foo", s%"BarNew"] ∧
+    (itemId (.struct (mkStruct s%"Bar" (some s%"BarNew") [] []))).renamed = s%"BarNew" := by decide
 
 /-! ## the `ids` clause of `InScope` is an invariant of the parser -/
 
